@@ -285,15 +285,11 @@ func (l *ExpandedLexer) nextToken() Token {
 			tok.Type = ARROW
 			tok.Literal = string(ch) + string(l.ch)
 			l.readChar()
-		} else if l.peekChar() == '-' {
-			// Handle -- for flags like --formal
-			l.readChar() // consume first -
-			l.readChar() // consume second -
-			// Now read the flag name
-			flagTok := l.readIdentifier()
-			tok.Type = flagTok.Type
-			tok.Literal = "--" + flagTok.Literal
 		} else {
+			// `--flag` is two MINUS tokens and an identifier, as in compact
+			// syntax: the parser recognises a flag parameter by them. Fusing
+			// them into one identifier "--flag" made a command's flag an
+			// ordinary positional parameter named "--flag" in expanded syntax.
 			tok.Type = MINUS
 			tok.Literal = string(l.ch)
 			l.readChar()
